@@ -85,8 +85,36 @@ func applyExtreme(coins, bounds []*big.Int, unit []bool) string {
 	return fmt.Sprintf("coin-%d-highest", k)
 }
 
+// guardProver is deferred by every case builder: a prover that crashes on the (admissible) witness of the case is a
+// completeness failure with that witness as the failing input (asserted under C10; other properties only note it)
+func guardProver(r *Run, sys string, witness func() string) func() {
+	return func() {
+		if e := recover(); e != nil {
+			if r.Prop == "C10" {
+				r.Assert(false, sys+"/prover-crash", "prover-produces-a-proof-for-an-admissible-witness", func() string {
+					return fmt.Sprintf("witness %s: panic %v", witness(), e)
+				})
+			} else {
+				r.Note("%s prover crashed on witness %s: %v", sys, witness(), e)
+			}
+		}
+	}
+}
+
+// proverRefused: the Go prover returned an error for an admissible witness
+func proverRefused(r *Run, sys, witness string, err error) {
+	if r.Prop == "C10" {
+		r.Assert(false, sys+"/prover-refuses", "prover-produces-a-proof-for-an-admissible-witness", func() string {
+			return fmt.Sprintf("witness %s: %v", witness, err)
+		})
+	} else {
+		r.Note("%s prover refused witness %s: %v", sys, witness, err)
+	}
+}
+
 // --- Schnorr ---
 func schnorrCase(r *Run, rng *rand.Rand, tag string, sess []byte, x *big.Int, modelProver bool) *zkCase {
+	defer guardProver(r, "schnorr/"+tag, func() string { return eInt(x) })()
 	c := curveByTag(tag)
 	q := c.Params().N
 	if new(big.Int).Mod(x, q).Sign() == 0 && tag == "s256" {
@@ -108,6 +136,7 @@ func schnorrCase(r *Run, rng *rand.Rand, tag string, sess []byte, x *big.Int, mo
 	}
 	pf, err := schnorr.NewZKProof(sess, x, X, rdr(rng))
 	if err != nil {
+		proverRefused(r, "schnorr/"+tag, eInt(x), err)
 		return nil
 	}
 	zc.args = []string{tag, eBytes(sess), ePoint(X), ePoint(pf.Alpha), eInt(pf.T)}
@@ -116,15 +145,28 @@ func schnorrCase(r *Run, rng *rand.Rand, tag string, sess []byte, x *big.Int, mo
 }
 
 func schnorrVCase(r *Run, rng *rand.Rand, tag string, sess []byte, s, l *big.Int, modelProver bool) *zkCase {
+	defer guardProver(r, "schnorrv/"+tag, func() string { return "s=" + eInt(s) + " l=" + eInt(l) })()
 	c := curveByTag(tag)
 	q := c.Params().N
 	R := crypto.ScalarBaseMult(c, new(big.Int).Add(below(rng, new(big.Int).Sub(q, bi(1))), bi(1)))
-	if tag == "s256" && (new(big.Int).Mod(s, q).Sign() == 0 || new(big.Int).Mod(l, q).Sign() == 0) {
+	// V = s·R + l·G. A zero s or l is an admissible witness (V = l·G or V = s·R is a point); on secp256k1 the
+	// library's wrappers cannot hold the zero term, so V is built from the other term alone; both zero is not a
+	// statement the API can express there.
+	sZero, lZero := new(big.Int).Mod(s, q).Sign() == 0, new(big.Int).Mod(l, q).Sign() == 0
+	var V *crypto.ECPoint
+	var err error
+	switch {
+	case tag == "s256" && sZero && lZero:
 		return nil
-	}
-	V, err := R.ScalarMult(s).Add(crypto.ScalarBaseMult(c, l))
-	if err != nil {
-		return nil
+	case tag == "s256" && sZero:
+		V = crypto.ScalarBaseMult(c, l)
+	case tag == "s256" && lZero:
+		V = R.ScalarMult(s)
+	default:
+		V, err = R.ScalarMult(s).Add(crypto.ScalarBaseMult(c, l))
+		if err != nil {
+			return nil
+		}
 	}
 	zc := &zkCase{sys: "schnorrv/" + tag, op: "schnorrv_verify", sess: 1, stmt: []int{2, 3}, proof: []int{4, 5, 6}, witness: eInt(s) + "/" + eInt(l)}
 	if modelProver {
@@ -142,6 +184,7 @@ func schnorrVCase(r *Run, rng *rand.Rand, tag string, sess []byte, s, l *big.Int
 	}
 	pf, err := schnorr.NewZKVProof(sess, V, R, s, l, rdr(rng))
 	if err != nil {
+		proverRefused(r, "schnorrv/"+tag, "s="+eInt(s)+" l="+eInt(l), err)
 		return nil
 	}
 	zc.args = []string{tag, eBytes(sess), ePoint(V), ePoint(R), ePoint(pf.Alpha), eInt(pf.T), eInt(pf.U)}
@@ -151,6 +194,7 @@ func schnorrVCase(r *Run, rng *rand.Rand, tag string, sess []byte, s, l *big.Int
 
 // --- dln ---
 func dlnCase(r *Run, rng *rand.Rand, fx *keygen.LocalPartySaveData, second bool, modelProver bool) *zkCase {
+	defer guardProver(r, "dln", func() string { return "fixture" })()
 	h1, h2, x := fx.H1i, fx.H2i, fx.Alpha
 	if second {
 		h1, h2, x = fx.H2i, fx.H1i, fx.Beta
@@ -180,6 +224,7 @@ func dlnCase(r *Run, rng *rand.Rand, fx *keygen.LocalPartySaveData, second bool,
 
 // --- mod ---
 func modCase(r *Run, rng *rand.Rand, fx *keygen.LocalPartySaveData, sess []byte, modelProver bool) *zkCase {
+	defer guardProver(r, "mod", func() string { return "fixture" })()
 	sk := fx.PaillierSK
 	zc := &zkCase{sys: "mod", op: "mod_verify", sess: 0, stmt: []int{6}, proof: []int{1, 2, 3, 4, 5}, parts: modproof.ProofModBytesParts}
 	zc.wire = func(a []string) []*big.Int {
@@ -205,6 +250,7 @@ func modCase(r *Run, rng *rand.Rand, fx *keygen.LocalPartySaveData, sess []byte,
 	}
 	pf, err := modproof.NewProof(sess, sk.N, sk.P, sk.Q, rdr(rng))
 	if err != nil {
+		proverRefused(r, "mod", "fixture", err)
 		return nil
 	}
 	zc.args = []string{eBytes(sess), eInt(pf.W), eInts(pf.X[:]), eInt(pf.A), eInt(pf.B), eInts(pf.Z[:]), eInt(sk.N)}
@@ -214,6 +260,7 @@ func modCase(r *Run, rng *rand.Rand, fx *keygen.LocalPartySaveData, sess []byte,
 
 // --- fac ---
 func facCase(r *Run, rng *rand.Rand, tag string, prover, verifier *keygen.LocalPartySaveData, sess []byte, modelProver bool) *zkCase {
+	defer guardProver(r, "fac/"+tag, func() string { return "fixture" })()
 	c := curveByTag(tag)
 	q := c.Params().N
 	sk := prover.PaillierSK
@@ -239,6 +286,7 @@ func facCase(r *Run, rng *rand.Rand, tag string, prover, verifier *keygen.LocalP
 	}
 	pf, err := facproof.NewProof(sess, c, N0, NCap, s, t, sk.P, sk.Q, rdr(rng))
 	if err != nil {
+		proverRefused(r, "fac/"+tag, "fixture", err)
 		return nil
 	}
 	zc.args = []string{tag, eBytes(sess), eInt(N0), eInt(NCap), eInt(s), eInt(t), eInts(facToInts(pf))}
@@ -248,6 +296,7 @@ func facCase(r *Run, rng *rand.Rand, tag string, prover, verifier *keygen.LocalP
 
 // --- Alice's range proof ---
 func rangeCase(r *Run, rng *rand.Rand, tag string, alice, bob *keygen.LocalPartySaveData, m *big.Int, modelProver bool) *zkCase {
+	defer guardProver(r, "range/"+tag, func() string { return eInt(m) })()
 	c := curveByTag(tag)
 	q := c.Params().N
 	pk := &alice.PaillierSK.PublicKey
@@ -275,6 +324,7 @@ func rangeCase(r *Run, rng *rand.Rand, tag string, alice, bob *keygen.LocalParty
 	}
 	cA, pf, err := mta.AliceInit(c, pk, m, bob.NTildei, bob.H1i, bob.H2i, rdr(rng))
 	if err != nil {
+		proverRefused(r, "range/"+tag, eInt(m), err)
 		return nil
 	}
 	zc.args = []string{tag, eInt(pk.N), eInt(bob.NTildei), eInt(bob.H1i), eInt(bob.H2i), eInt(cA), eInts(rangeToInts(pf))}
@@ -290,6 +340,7 @@ func padTo(v *big.Int, bits int) []byte {
 
 // --- Bob's proofs ---
 func bobCase(r *Run, rng *rand.Rand, tag string, alice, bob *keygen.LocalPartySaveData, sess []byte, a, b *big.Int, wc bool, modelProver bool) *zkCase {
+	defer guardProver(r, "bob/"+tag, func() string { return "a=" + eInt(a) + " b=" + eInt(b) })()
 	c := curveByTag(tag)
 	q := c.Params().N
 	pk := &alice.PaillierSK.PublicKey
@@ -356,14 +407,14 @@ func bobCase(r *Run, rng *rand.Rand, tag string, alice, bob *keygen.LocalPartySa
 	if wc {
 		_, cB, _, pf, err := mta.BobMidWC(sess, c, pk, rpf, b, cA, alice.NTildei, alice.H1i, alice.H2i, bob.NTildei, bob.H1i, bob.H2i, B, rdr(rng))
 		if err != nil {
-			r.Note("BobMidWC: %v", err)
+			proverRefused(r, "bobwc/"+tag, "a="+eInt(a)+" b="+eInt(b), err)
 			return nil
 		}
 		zc.args = []string{tag, eBytes(sess), eInt(pk.N), eInt(alice.NTildei), eInt(alice.H1i), eInt(alice.H2i), eInt(cA), eInt(cB), eInts(bobToInts(pf.ProofBob)), ePoint(B), ePoint(pf.U)}
 	} else {
 		_, cB, _, pf, err := mta.BobMid(sess, c, pk, rpf, b, cA, alice.NTildei, alice.H1i, alice.H2i, bob.NTildei, bob.H1i, bob.H2i, rdr(rng))
 		if err != nil {
-			r.Note("BobMid: %v", err)
+			proverRefused(r, "bob/"+tag, "a="+eInt(a)+" b="+eInt(b), err)
 			return nil
 		}
 		zc.args = []string{tag, eBytes(sess), eInt(pk.N), eInt(alice.NTildei), eInt(alice.H1i), eInt(alice.H2i), eInt(cA), eInt(cB), eInts(bobToInts(pf)), "nil", "nil"}
@@ -377,6 +428,7 @@ var _ = fmt.Sprint
 
 // --- Paillier key-correctness proof (crypto/paillier Proof): statement (N, the prover's party key k, the group key) ---
 func paiCase(r *Run, rng *rand.Rand, fx *keygen.LocalPartySaveData) *zkCase {
+	defer guardProver(r, "paillier-key", func() string { return "fixture" })()
 	sk := fx.PaillierSK
 	k := fx.ShareID
 	pub := fx.ECDSAPub
@@ -414,6 +466,12 @@ func honestCases(r *Run, rng *rand.Rand, thorough bool) []*zkCase {
 				add(schnorrCase(r, rng, tag, s, x, (i+j)%2 == 1))
 				add(schnorrVCase(r, rng, tag, s, x, ws[(i+1)%len(ws)], (i+j)%2 == 0))
 			}
+		}
+		// the zero witnesses of Schnorr-V, by both provers (V = l·G and V = s·R)
+		for _, mp := range []bool{false, true} {
+			add(schnorrVCase(r, rng, tag, ss[0], bi(0), ws[3], mp))
+			add(schnorrVCase(r, rng, tag, ss[len(ss)-1], ws[3], bi(0), mp))
+			add(schnorrVCase(r, rng, tag, ss[0], bi(0), bi(1), mp))
 		}
 	}
 	ss := sessions(rng)
